@@ -69,7 +69,9 @@ TilesJsonFails(r) ==
     ELSE IF r.resp.status # 200 THEN {"tilesjson_status"}
     ELSE Fails("tilesjson_valid_json", r.valid = 1) \cup
          (IF r.valid = 0 THEN {} ELSE
-          Fails("tilesjson_template", r.template = "/tiles/" \o r.q.src.sid \o "/{z}/{x}/{y}") \cup
+          \* a tiles URL template: its path names the source and has the three placeholders (absolute or relative, with or
+          \* without an extension after {y}, id percent-encoded or not)
+          Fails("tilesjson_template", {"{z}", "{x}", "{y}", r.q.src.sid} \subseteq {r.template_segs[i] : i \in 1..Len(r.template_segs)}) \cup
           Fails("tilesjson_zoom", r.minzoom = r.cov_minzoom /\ r.maxzoom = r.cov_maxzoom) \cup
           \* bounds (millionths of a degree): a proper box inside the world
           Fails("tilesjson_bounds", Len(r.bounds_e6) = 4 /\ -180000000 <= r.bounds_e6[1] /\ r.bounds_e6[1] <= r.bounds_e6[3]
